@@ -1,0 +1,5 @@
+//go:build !verif
+
+package vm
+
+func (vm *Thread) verifBeforeInstruction() {}
